@@ -151,6 +151,11 @@ func (t *QCPendingTree) updateHighQC(inProposalId []byte) {
 	}
 	// 更改HighQC以及一系列的GenericQC、LockedQC和CommitQC
 	t.HighQC = node
+	// the three markers are the successive ancestors of HighQC: an ancestor that is
+	// no longer in the tree must not leave the marker of the previous HighQC behind
+	t.GenericQC = nil
+	t.LockedQC = nil
+	t.CommitQC = nil
 	t.Log.Debug("QCPendingTree::updateHighQC", "HighQC height", node.In.GetProposalView(), "HighQC", utils.F(node.In.GetProposalId()))
 	parent := t.DFSQueryNode(node.In.GetParentProposalId())
 	if parent == nil {
